@@ -53,6 +53,22 @@ def _eq_text(a, b):
     return (a or "") == (b or "")
 
 
+def _unambiguous(hd):
+    """the naive local reading exists exactly once in the process' zone (not inside a DST gap or repeated hour)"""
+    try:
+        t0, t1 = hd.replace(fold=0).timestamp(), hd.replace(fold=1).timestamp()
+        return t0 == t1 and _dt.datetime.fromtimestamp(t0) == hd
+    except (OverflowError, OSError, ValueError):
+        return False
+
+
+def _offset_class():
+    import time
+
+    off = -time.timezone
+    return ("neg" if off < 0 else "pos" if off > 0 else "zero") + ("-frac" if off % 3600 else "")
+
+
 def _cmp(cs, level, field, cls, got, want, ctx, reader, eq=None):
     cs.count("fields_compared")
     cs.count("field:" + field)
@@ -275,6 +291,9 @@ def _model_manifest(cs):
             for e, (f, dgt, a, hd, s) in zip(mh.hash_entries, w["ents"]):
                 gd = e.hash_date.replace(tzinfo=None) if e.hash_date is not None else None
                 _cmp(cs, "model", "hashdate", "us0" if hd.microsecond == 0 else "us", gd, hd, c2, "own")
+                if e.hash_date is not None and e.hash_date.tzinfo is not None and _unambiguous(hd):
+                    # the text carries an offset: what is read back must denote the instant that was written
+                    _cmp(cs, "model", "hashdate.instant", _offset_class(), e.hash_date.timestamp(), hd.timestamp(), c2, "own")
             # index invariant (I11): record is found under its path and its previous path
             cs.count("index_invariant_checked")
             if back.media_hashes_path_map.get(mh.path) is not mh or (mh.previous_path and back.media_hashes_path_map.get(mh.previous_path) is not mh):
@@ -298,6 +317,12 @@ def _model_manifest(cs):
             except Exception:
                 gd = ds
             _cmp(cs, "model", "hashdate", "us0" if hd.microsecond == 0 else "us", gd, hd, c2, "indep")
+            try:
+                aware = _dt.datetime.fromisoformat(ds)
+            except Exception:
+                aware = None
+            if aware is not None and aware.tzinfo is not None and _unambiguous(hd):
+                _cmp(cs, "model", "hashdate.instant", _offset_class(), aware.timestamp(), hd.timestamp(), c2, "indep")
         try:
             lm = _dt.datetime.fromisoformat(rec["lastmod"]).replace(tzinfo=None)
         except Exception:
